@@ -131,6 +131,8 @@ def exp_list(seq, case, level):
             # nothing inserted) are all acceptable
             e.defined = False
             e.optional[nf] += 1
+            e.optional[DUP] = len(dups)
+            e.owed.pop(DUP, None)
             return e
         e.resolves = True
         e.alts = [tuple(seqref.insert_before(seq, new, t[1] if t[0] == 'at' else END))]
